@@ -64,7 +64,13 @@ fn status_value(rng: &mut Rng) -> (Option<ServerStatus>, Value) {
         None
     };
     let description_json = if rng.bool() { Some(json!({"text": format!("motd {}", rng.ascii_name(0, 12)), "color": "gold"})) } else { None };
-    let favicon = if rng.chance(1, 3) { Some(format!("data:image/png;base64,{}", rng.ascii_name(4, 20))) } else { None };
+    // a real server icon is 10-30 KB of base64: the frame then needs a 3-byte length prefix
+    let favicon = match rng.below(6) {
+        0 | 1 => Some(format!("data:image/png;base64,{}", rng.ascii_name(4, 20))),
+        2 => Some(format!("data:image/png;base64,{}", rng.ascii_name(16_300, 16_500))),
+        3 => Some(format!("data:image/png;base64,{}", rng.ascii_name(20_000, 30_000))),
+        _ => None,
+    };
     let secure = if rng.bool() { Some(rng.bool()) } else { None };
     let status = ServerStatus {
         version: ServerVersion { name: name.clone(), protocol },
